@@ -257,16 +257,24 @@ for (n, tier, to) in ((0, "quick", 300), (1, "quick", 300), (5, "quick", 300), (
     uw = {"memset.0": 514, "memcpy.0": n + 2, "vp_fill.0": n + 2,
           "encode_block.0": 4, "encode_block.1": m + 2, "encode_block.2": n + 1, "encode_block.3": m // 4 + 3,
           "encode_block.4": m + 2, "emit_copy.0": 2, "ldb_snappy_encode.0": 1,
-          "decode_blocks.0": n + 4, "decode_blocks.1": n + 1,
+          # the encoder emits at most 2*ceil((n-15)/4)+1 elements (literal, copy, ..., final literal)
+          "decode_blocks.1": 2 * ((m + 3) // 4) + 3, "decode_blocks.0": n + 1,
           "vp_ref_snappy_decode.0": 5, "vp_ref_snappy_decode.1": n + 1, "vp_ref_snappy_decode.2": n + 1,
-          "vp_ref_snappy_decode.3": n + 4, "ldb_varint32_read.0": 6, "vp_ref_varint_get.0": 6,
+          "vp_ref_snappy_decode.3": 2 * ((m + 3) // 4) + 3, "ldb_varint32_read.0": 6, "vp_ref_varint_get.0": 6,
           "harness.0": n + 1, "harness.1": n + 1}
-    add("g.snappy-roundtrip-N%d" % n, "C16/snappy.c", real=["util/snappy.c"], kit=["vp_nondet.c", "vp_mem.c"],
-        defs={"VP_MODE": 0, "VP_N": n}, unwind=n + 4, unwindset=uw, tier=tier, timeout=to, cost=20 * n,
-        functions=["snappy_encode_size", "snappy_encode", "encode_block", "emit_literal", "emit_copy", "snappy_decode_size",
-                   "snappy_decode", "decode_blocks"],
-        desc="snappy: encode_size == 32+n+n/6, encode stays inside it (exact-size output object), decode_size == n, decode(encode(x)) == x, independent reference Snappy decoder reads x back",
-        bounds="x = %d symbolic bytes%s" % (n, " (>= 17: the hash-table matcher encode_block runs)" if n >= 17 else " (< 17: literal-only path)"))
+    for part in ((None,) if n < 17 else (1, 2)):
+        d = {"VP_MODE": 0, "VP_N": n}
+        if part:
+            d["VP_PART"] = part
+        add("g.snappy-roundtrip-N%d%s" % (n, {None: "", 1: "-own", 2: "-ref"}[part]), "C16/snappy.c",
+            real=["util/snappy.c"], kit=["vp_nondet.c", "vp_mem.c"],
+            defs=d, unwind=n + 4, unwindset=uw, tier=tier, timeout=to, cost=20 * n,
+            functions=["snappy_encode_size", "snappy_encode", "encode_block", "emit_literal", "emit_copy", "snappy_decode_size",
+                       "snappy_decode", "decode_blocks"],
+            desc="snappy: encode_size == 32+n+n/6, encode stays inside it (exact-size output object), decode_size == n, " +
+                 {None: "decode(encode(x)) == x, independent reference Snappy decoder reads x back",
+                  1: "decode(encode(x)) == x", 2: "independent reference Snappy decoder reads x back"}[part],
+            bounds="x = %d symbolic bytes%s" % (n, " (>= 17: the hash-table matcher encode_block runs)" if n >= 17 else " (< 17: literal-only path)"))
 for (n, z, tier) in ((3, 1, "quick"), (6, 4, "quick"), (5, 8, "quick"), (8, 6, "quick"), (10, 8, "thorough"), (12, 10, "thorough"), (9, 16, "thorough")):
     add("g.snappy-decode-arbitrary-N%d-Z%d" % (n, z), "C16/snappy.c", real=["util/snappy.c"], kit=["vp_nondet.c", "vp_mem.c"],
         defs={"VP_MODE": 1, "VP_N": n, "VP_Z": z}, unwind=max(n, z) + 3, unwind_is_violation=True,
